@@ -324,7 +324,7 @@ def _worker(job):
         for k, d in check_case(c):
             s.fail(k, c, d)
 
-    H.hyp_run(cases(), body, n, seed)
+    H.hyp_run(cases(), body, n, seed, stats=s)
     return s
 
 
